@@ -1,25 +1,28 @@
 /-
-C07 — degree claims are sound (the operator tables and their lifting to ranges).
+C07 — degree claims are sound.
 
-`Gen/ImplTables.lean` is the *graph of the running code*: `vharness tables` executes the real
-`Degree` / `DegreeRange` functions over their whole (finite) domain on every run.  The theorems
-below are therefore re-checked against what the code does now:
-* the hand model `Propagate.degOp` / `rangeOp` (used by the propagation model) equals the code
-  on the whole domain;
-* the code's degree is exactly the degree of Circom's expression algebra (`Algebra.alg`), for
-  all 23 operators and all operand degrees — in particular `~` and `!` of a non-constant
-  operand are non-quadratic;
-* lifting to ranges is sound: whatever the true degrees within the operand ranges, the
-  algebra's degree is at most the upper end of the result range (monotonicity).
-The expression- and path-level statements are in `Props/C06.lean`/`C20.lean` (shared
-propagation model) and in the correspondence run of `checks/c07.py`.
+Operator level (`Lemmas/DegreeOps.lean`, re-exported here): `Gen/ImplTables.lean` is the graph of the
+running code (`vharness tables` executes the real `Degree` / `DegreeRange` functions over their whole
+finite domain on every run); the hand model equals the code on the whole domain, the code's degree is
+exactly the degree of Circom's expression algebra for all 23 operators and all operand degrees, and
+lifting to ranges is monotone.
+
+Expression level (`Lemmas/DegreeLemmas.lean`): `degE δ e` is the degree of `e` in Circom's algebra when
+the variables have the degrees `δ` (signals and ports indeterminates, parameters and literals
+constants).  For every expression, every abstract environment and every `δ` it bounds, every range
+`propagate_degrees` writes on any node of the expression is an upper bound of that node's degree
+(`C07_expr_sound`): all operators, inline switches with constant conditions, calls with constant
+arguments, inline arrays, array accesses with constant / non-constant / unknown indices, array updates
+including the "first assignment" rule, and phi nodes; the short-circuit `changed` flags only skip work.
+Propagation changes annotations only (`C07_degree_unchanged`).
+
+Not a Lean theorem: the lifting to all execution paths (that the environment stays in agreement along
+the passes); decided per run by `checks/c07.py` (correspondence + least-fixpoint oracle).
 -/
-import Circomspect.Gen.ImplTables
-import Circomspect.Spec.Algebra
-import Circomspect.Model.Propagate
+import Circomspect.Lemmas.DegreeLemmas
 
 namespace Circomspect.C07
-open Circomspect Gen Algebra Propagate
+open Circomspect Gen Algebra Propagate Ir
 
 /-- the model of the operator tables is the code, on the whole domain -/
 theorem C07_model_is_code :
@@ -27,65 +30,51 @@ theorem C07_model_is_code :
     implDegPrefix.all (fun r => degPrefix r.1 r.2.1 == r.2.2) = true ∧
     implRangeOp.all (fun r => rangeOp r.1 r.2.1 r.2.2.1 == r.2.2.2) = true ∧
     implRangePrefix.all (fun r => rangePrefix r.1 r.2.1 == r.2.2) = true ∧
-    implRangeInf.all (fun r => rangeInf r.1 r.2.1 == r.2.2) = true := by
-  refine ⟨by decide +kernel, by decide +kernel, by decide +kernel, by decide +kernel, by decide +kernel⟩
+    implRangeInf.all (fun r => rangeInf r.1 r.2.1 == r.2.2) = true :=
+  C07ops.C07_model_is_code
 
-/-- every operator of the language and every pair of operand degrees is in the table -/
+/-- the regenerated table covers every operator and every pair of operand degrees -/
 theorem C07_table_complete :
     infixOps.all (fun op => (List.range 4).all (fun a => (List.range 4).all (fun b =>
       implDegOp.any (fun r => r.1 == op && r.2.1 == a && r.2.2.1 == b)))) = true ∧
-    prefixOps.all (fun op => (List.range 4).all (fun a => implDegPrefix.any (fun r => r.1 == op && r.2.1 == a))) = true := by
-  refine ⟨by decide +kernel, by decide +kernel⟩
+    prefixOps.all (fun op => (List.range 4).all (fun a => implDegPrefix.any (fun r => r.1 == op && r.2.1 == a))) = true :=
+  C07ops.C07_table_complete
 
-/-- the code's transfer function is Circom's algebra, row by row (this *is* the quantifier: the
-    table is the whole function) -/
+/-- the code's transfer table is Circom's expression algebra, row by row -/
 theorem C07_table :
     implDegOp.all (fun r => alg r.1 r.2.1 r.2.2.1 == r.2.2.2) = true ∧
-    implDegPrefix.all (fun r => algPrefix r.1 r.2.1 == r.2.2) = true := by
-  refine ⟨by decide +kernel, by decide +kernel⟩
+    implDegPrefix.all (fun r => algPrefix r.1 r.2.1 == r.2.2) = true :=
+  C07ops.C07_table
 
-theorem degOp_le3 (op : String) (a b : Nat) (ha : a ≤ 3) (hb : b ≤ 3) : degOp op a b ≤ 3 := by
-  unfold degOp; simp only [Nat.max_def]; (repeat' split) <;> omega
-
-/-- the operator tables are monotone in both operands -/
-theorem degOp_mono (op : String) (a a' b b' : Nat) (ha : a ≤ a') (hb : b ≤ b') (ha' : a' ≤ 3) (hb' : b' ≤ 3) :
-    degOp op a b ≤ degOp op a' b' := by
-  unfold degOp; simp only [Nat.max_def]; (repeat' split) <;> omega
-
-theorem degPrefix_mono (op : String) (a a' : Nat) (ha : a ≤ a') : degPrefix op a ≤ degPrefix op a' := by
-  unfold degPrefix; (repeat' split) <;> omega
-
-theorem alg_eq_degOp (op : String) (a b : Nat) (ha : a ≤ 3) (hb : b ≤ 3) : alg op a b = degOp op a b := by
-  unfold alg degOp
-  by_cases h1 : op = "add"
-  · subst h1; simp
-  · by_cases h2 : op = "sub"
-    · subst h2; simp
-    · by_cases h3 : op = "mul"
-      · subst h3; simp only [h1, h2, or_self, if_false, if_true]
-        simp only [Nat.min_def]; (repeat' split) <;> omega
-      · simp only [h1, h2, h3, or_self, if_false]
-
-/-- Range soundness for all 20 infix operators: if the true degrees lie below the upper ends of the
-    operand ranges, the algebra's degree lies below the upper end of the computed range. -/
+/-- lifting to ranges: whatever the true degrees within the operand ranges, the algebra's degree is at
+    most the upper end of the result range -/
 theorem C07_range (op : String) (r s : Ir.Range) (d₁ d₂ : Nat) (h₁ : d₁ ≤ r.2) (h₂ : d₂ ≤ s.2)
-    (hr : r.2 ≤ 3) (hs : s.2 ≤ 3) : alg op d₁ d₂ ≤ (rangeOp op r s).2 := by
-  rw [alg_eq_degOp op d₁ d₂ (by omega) (by omega)]
-  exact degOp_mono op d₁ r.2 d₂ s.2 h₁ h₂ hr hs
+    (hr : r.2 ≤ 3) (hs : s.2 ≤ 3) : alg op d₁ d₂ ≤ (rangeOp op r s).2 :=
+  C07ops.C07_range op r s d₁ d₂ h₁ h₂ hr hs
 
 theorem C07_range_prefix (op : String) (r : Ir.Range) (d : Nat) (h : d ≤ r.2) (hop : op ∈ prefixOps) :
-    algPrefix op d ≤ (rangePrefix op r).2 := by
-  have e : algPrefix op d = degPrefix op d := by
-    unfold algPrefix degPrefix
-    simp only [prefixOps, List.mem_cons, List.not_mem_nil, or_false] at hop
-    rcases hop with h | h | h <;> subst h <;> simp
-  rw [e]; exact degPrefix_mono op d r.2 h
+    algPrefix op d ≤ (rangePrefix op r).2 :=
+  C07ops.C07_range_prefix op r d h hop
 
-/-- joins (`DegreeRange::inf`, used for phi, arrays and ternaries) keep upper bounds -/
-theorem C07_inf (r s : Ir.Range) : r.2 ≤ (rangeInf r s).2 ∧ s.2 ≤ (rangeInf r s).2 := by
-  unfold rangeInf; simp only [Nat.max_def]; split <;> omega
+theorem C07_inf (r s : Ir.Range) : r.2 ≤ (rangeInf r s).2 ∧ s.2 ≤ (rangeInf r s).2 :=
+  C07ops.C07_inf r s
+
+/-- every range written on any node of an expression bounds that node's degree, under every degree
+    assignment that the abstract environment bounds -/
+theorem C07_expr_sound (δ : VName → Nat) (env : DegEnv) (hag : AgreeD δ env) (e : Expr) (h : SoundD δ e) :
+    SoundD δ (degExpr env e).1 :=
+  degExpr_sound δ env hag e h
+
+/-- degree propagation changes annotations only -/
+theorem C07_degree_unchanged (δ : VName → Nat) (env : DegEnv) (e : Expr) :
+    degE δ (degExpr env e).1 = degE δ e :=
+  degE_degExpr δ env e
 
 /-- the two rows repaired by a `fix:` commit: `~x` and `!x` of a non-constant `x` -/
 example : algPrefix "compl" 1 = 3 ∧ algPrefix "not" 1 = 3 ∧ degPrefix "compl" 1 = 3 := by decide
+
+/-! non-vacuity: `in * in` with `in` linear gets the range (2, 2), which bounds its degree 2 -/
+example : (degExpr ⟨[(⟨"in", none, none⟩, (1, 1))], [], []⟩
+    (.infix {} "mul" (.var { deg := some (1, 1) } ⟨"in", none, none⟩) (.var { deg := some (1, 1) } ⟨"in", none, none⟩))).1.ann.deg = some (2, 2) := by decide
 
 end Circomspect.C07
